@@ -219,6 +219,66 @@ func collectNodes(r *rep, what string, it graph.Nodes) (ids []int64, ok bool) {
 	return ids, true
 }
 
+// iterProtocol drives one graph.Nodes value through the whole iterator
+// contract: a full pass (Len before/after every Next), Reset, a second full
+// pass; then for every k a partial pass of k steps, Len, Reset and a full
+// pass again. Every full pass must yield exactly want and Len must always be
+// the number of items not yet returned. (k: all 0..len(want) up to 8 items,
+// else 0, 1, the middle and the end.)
+func iterProtocol(r *rep, what string, it graph.Nodes, want []int64) {
+	if it == nil {
+		r.Failf("%s is nil", what)
+		return
+	}
+	for pass := 1; pass <= 2; pass++ {
+		got, ok := collectNodes(r, fmt.Sprintf("%s pass %d", what, pass), it)
+		if !ok {
+			return
+		}
+		if !sameIDSet(got, want) {
+			r.Failf("%s pass %d (after %d Reset) yields %v, want %v", what, pass, pass-1, got, want)
+			return
+		}
+		it.Reset()
+		if l := it.Len(); l != len(want) {
+			r.Failf("%s: Len()=%d after Reset following pass %d, want %d", what, l, pass, len(want))
+			return
+		}
+	}
+	ks := []int{0, 1, len(want) / 2, len(want)}
+	if len(want) <= 8 {
+		ks = ks[:0]
+		for k := 0; k <= len(want); k++ {
+			ks = append(ks, k)
+		}
+	}
+	for _, k := range ks {
+		if k > len(want) {
+			continue
+		}
+		it.Reset()
+		for i := 0; i < k; i++ {
+			if !it.Next() {
+				r.Failf("%s: Next()=false at step %d of %d after Reset", what, i, len(want))
+				return
+			}
+		}
+		if l := it.Len(); l != len(want)-k {
+			r.Failf("%s: Len()=%d after %d of %d steps, want %d", what, l, k, len(want), len(want)-k)
+			return
+		}
+		it.Reset()
+		got, ok := collectNodes(r, fmt.Sprintf("%s after a partial pass of %d and Reset", what, k), it)
+		if !ok {
+			return
+		}
+		if !sameIDSet(got, want) {
+			r.Failf("%s after a partial pass of %d steps and Reset yields %v, want %v", what, k, got, want)
+			return
+		}
+	}
+}
+
 func sameIDSet(got []int64, want []int64) bool {
 	g := append([]int64(nil), got...)
 	sort.Slice(g, func(i, j int) bool { return g[i] < g[j] })
@@ -290,25 +350,88 @@ func auditValid6(r *rep, c *g6codec, s string, n int, want [][]bool, us []int64)
 	in := func(u int64) bool { return u >= 0 && u < int64(n) }
 	edge := func(u, v int64) bool { return in(u) && in(v) && u != v && want[u][v] }
 	if p := catch(func() {
-		ids, ok := collectNodes(r, "Nodes()", g.Nodes())
-		if !ok {
-			return
-		}
 		all := make([]int64, n)
 		for i := range all {
 			all[i] = int64(i)
 		}
-		if !sameIDSet(ids, all) {
-			r.Failf("Nodes() of %s = %v, want 0..%d", hexs(clip(s, 40)), ids, n-1)
-			return
+		iterProtocol(r, "Nodes()", g.Nodes(), all)
+	}); p != "" {
+		r.Failf("Nodes() of valid %s panicked: %s", hexs(clip(s, 40)), p)
+		return
+	}
+	if us == nil {
+		for u := int64(-1); u <= int64(n); u++ {
+			us = append(us, u)
 		}
-		it := g.Nodes()
-		for it.Next() {
+	}
+	for _, u := range us {
+		u := u
+		if p := catch(func() {
+			nd := g.Node(u)
+			if (nd != nil) != in(u) {
+				r.Failf("Node(%d) presence wrong (n=%d)", u, n)
+			} else if nd != nil && nd.ID() != u {
+				r.Failf("Node(%d).ID()=%d", u, nd.ID())
+			}
+			// From
+			var wantFrom, wantTo []int64
+			for v := int64(0); v < int64(n); v++ {
+				if edge(u, v) {
+					wantFrom = append(wantFrom, v)
+				}
+				if edge(v, u) {
+					wantTo = append(wantTo, v)
+				}
+			}
+			f := g.From(u)
+			switch {
+			case f == nil && !in(u):
+				r.finding("graph6-from-nil", c.name, "%s.Graph(%s) is valid with %d nodes, From(%d) returns a nil graph.Nodes; graph.Graph requires \"From must not return nil\"", c.name, q(clip(s, 24)), n, u)
+			case f == nil:
+				r.Failf("From(%d) is nil for a node of the graph", u)
+			default:
+				iterProtocol(r, fmt.Sprintf("From(%d)", u), f, wantFrom)
+			}
+			if d, ok := g.(graph.Directed); ok {
+				to := d.To(u)
+				if to == nil {
+					r.Failf("null graph %s: To(%d) is nil", hexs(s), u)
+				} else if to.Len() != 0 || to.Next() {
+					r.Failf("null graph %s: To(%d) not empty", hexs(s), u)
+				}
+			}
+			for v := int64(-1); v <= 2; v++ {
+				if g.HasEdgeBetween(u, v) || g.Edge(u, v) != nil {
+					r.Failf("null graph %s has edge %d,%d", hexs(s), u, v)
+				}
+				if d, ok := g.(graph.Directed); ok && d.HasEdgeFromTo(u, v) {
+					r.Failf("null graph %s has edge %d->%d", hexs(s), u, v)
+				}
+				if ug, ok := g.(graph.Undirected); ok && ug.EdgeBetween(u, v) != nil {
+					r.Failf("null graph %s has edge between %d,%d", hexs(s), u, v)
+				}
+			}
 		}
-		it.Reset()
-		if it.Len() != n {
-			r.Failf("Nodes().Reset(): Len()=%d want %d", it.Len(), n)
+	}); p != "" {
+		r.Failf("query on invalid (null) %s %s panicked: %s", c.name, hexs(s), p)
+	}
+	if p := catch(func() { _ = c.goString(s) }); p != "" {
+		r.finding("g6-gostring-invalid-panics", c.name, "%s.Graph(%s).GoString() panics on an invalid encoding (documented to behave as the null graph): %s", c.name, q(s), p)
+	}
+}
+
+// auditValid6 checks every query of g against the adjacency want on ids
+// -1..n. us restricts the source ids examined (nil: all).
+func auditValid6(r *rep, c *g6codec, s string, n int, want [][]bool, us []int64) {
+	g := c.mk(s)
+	in := func(u int64) bool { return u >= 0 && u < int64(n) }
+	edge := func(u, v int64) bool { return in(u) && in(v) && u != v && want[u][v] }
+	if p := catch(func() {
+		all := make([]int64, n)
+		for i := range all {
+			all[i] = int64(i)
 		}
+		iterProtocol(r, "Nodes()", g.Nodes(), all)
 	}); p != "" {
 		r.Failf("Nodes() of valid %s panicked: %s", hexs(clip(s, 40)), p)
 		return
@@ -358,10 +481,7 @@ func auditValid6(r *rep, c *g6codec, s string, n int, want [][]bool, us []int64)
 				if to == nil {
 					r.Failf("To(%d) is nil", u)
 				} else {
-					got, ok := collectNodes(r, fmt.Sprintf("To(%d)", u), to)
-					if ok && !sameIDSet(got, wantTo) {
-						r.Failf("To(%d)=%v want %v", u, got, wantTo)
-					}
+					iterProtocol(r, fmt.Sprintf("To(%d)", u), to, wantTo)
 				}
 			}
 			for v := int64(-1); v <= int64(n); v++ {
